@@ -1,5 +1,6 @@
 import TensoraVerif.Model.Sexp
 import TensoraVerif.Model.Storage
+import TensoraVerif.Model.IRWire
 open TV
 
 namespace Drv
@@ -44,6 +45,92 @@ def encErr : EncErr → Sexp
   | .badOrdering => Sexp.mk "err" [.atom "badOrdering"]
   | .badCoordinateLength => Sexp.mk "err" [.atom "badCoordinateLength"]
 
+/-! #### small explicit environments for expression/statement equivalence runs (C07) -/
+open TV.IR in
+def valOf : Sexp → Option (Val Float)
+  | .atom "true" => some (.bool true)
+  | .atom "false" => some (.bool false)
+  | .atom "null" => some .null
+  | .list [.atom "f", .atom bits] => bits.toNat?.map fun n => .flt (Float.ofBits (UInt64.ofNat n))
+  | .atom a => a.toInt?.map .int
+  | _ => none
+
+open TV.IR in
+/-- `(env (var "i" (Integer) 3) (arr "A" (Float) (v0 v1 u)) …)`; `u` = uninitialised -/
+def envOf (s : Sexp) : Option (State Float) :=
+  match s with
+  | .list (.atom "env" :: items) =>
+    items.foldlM (fun (σ : State Float) it =>
+      match it with
+      | .list [.atom "var", .str n, ty, v] => do
+        let ty ← Wire.tyOf ty
+        let v ← (match v with | .atom "u" => some none | v => (valOf v).map some)
+        pure { σ with vars := σ.vars ++ [⟨n, ty, v⟩] }
+      | .list [.atom "arr", .str n, ty, .list cells] => do
+        let ty ← Wire.tyOf ty
+        let et ← (match ty with | .int => some ElemTy.int | .float => some ElemTy.float | _ => none)
+        let cs ← cells.mapM fun c => (match c with | .atom "u" => some none | v => (valOf v).map some)
+        let stored := ((List.range cs.length).zip cs).filterMap fun (i, c) => c.map fun v => (i, v)
+        let blk : Block Float := ⟨et, cs.length, stored, .output, true⟩
+        pure { σ with heap := σ.heap ++ [blk], vars := σ.vars ++ [⟨n, .ptr ty, some (.ptr σ.heap.length 0)⟩] }
+      | _ => none) ⟨[], [], []⟩
+  | _ => none
+
+open TV.IR in
+def valSame : Val Float → Val Float → Bool
+  | .flt a, .flt b => a == b
+  | .int a, .int b => a == b
+  | .bool a, .bool b => a == b
+  | .ptr a o, .ptr b o' => a == b && o == o'
+  | .null, .null => true
+  | .tensor a, .tensor b => a == b
+  | .indices a, .indices b => a == b
+  | .level a l, .level b l' => a == b && l == l'
+  | _, _ => false
+
+open TV.IR in
+/-- numerically equal: identical, or original float = optimised int exactly -/
+def valRel : Val Float → Val Float → Bool
+  | .flt a, .int b => a == Float.ofInt b
+  | a, b => valSame a b
+
+open TV.IR in
+def optSame (f : Val Float → Val Float → Bool) : Option (Val Float) → Option (Val Float) → Bool
+  | none, none => true
+  | some a, some b => f a b
+  | _, _ => false
+
+open TV.IR in
+def stateSame (a b : State Float) : Bool :=
+  a.vars.length == b.vars.length
+  && (a.vars.zip b.vars).all (fun (x, y) => x.name == y.name && x.ty == y.ty && optSame valSame x.val y.val)
+  && a.heap.length == b.heap.length
+  && (a.heap.zip b.heap).all (fun (x, y) => x.len == y.len && x.live == y.live && x.ty == y.ty
+      && (List.range x.len).all fun i => optSame valSame (getCell i x.cells) (getCell i y.cells))
+
+open TV.IR in
+def outcomeSexp (r : Except Err (Out Float)) : Sexp :=
+  match r with
+  | .error e => Sexp.mk "err" [.atom (Wire.errName e)]
+  | .ok o => Sexp.mk "ok" [
+      Sexp.mk "ret" [match o.ret with | some v => Wire.valToSexp v | none => .atom "none"],
+      .list (o.st.vars.map fun v => .list [.str v.name, match v.val with | some x => Wire.valToSexp x | none => .atom "u"]),
+      .list (o.st.heap.map fun b => Sexp.mk "blk" [Sexp.ofBool b.live, Wire.cellsToSexp b])]
+
+open TV.IR in
+/-- verdict of one (original, optimised, environment) triple according to the C07 statement -/
+def equivVerdict (fuel : Nat) (orig opt : Stmt Float) (σ : State Float) : Sexp :=
+  match exec fuel orig σ with
+  | .error e => Sexp.mk "orig-fails" [.atom (Wire.errName e)]
+  | .ok o =>
+    match exec fuel opt σ with
+    | .error .intOverflow => Sexp.mk "alt-overflow" []
+    | .error e => Sexp.mk "DIFF" [.atom "opt-fails", .atom (Wire.errName e), outcomeSexp (.ok o)]
+    | .ok o' =>
+      if optSame valRel o.ret o'.ret && stateSame o.st o'.st then
+        (if optSame valSame o.ret o'.ret then Sexp.mk "same" [] else Sexp.mk "retyped" [])
+      else Sexp.mk "DIFF" [.atom "result", outcomeSexp (.ok o), outcomeSexp (.ok o')]
+
 def handle (cmd : String) (args : List Sexp) : Sexp :=
   match cmd, args with
   | "PING", _ => .atom "pong"
@@ -64,6 +151,51 @@ def handle (cmd : String) (args : List Sexp) : Sexp :=
     match storedOf t with
     | some t => Sexp.ofBool (wfCheck t)
     | none => Sexp.mk "bad-request" []
+  | "PEEPE", [e] =>
+    match IR.Wire.exprOf e with
+    | some e => IR.Wire.exprToSexp (IR.peepE e)
+    | none => Sexp.mk "bad-request" [.str "unknown-constructor"]
+  | "PEEPS", [s] =>
+    match IR.Wire.stmtOf s with
+    | some s => IR.Wire.stmtToSexp (IR.peepS s)
+    | none => Sexp.mk "bad-request" [.str "unknown-constructor"]
+  | "PEEPM", [m] =>
+    match IR.Wire.moduleOf m with
+    | some m => IR.Wire.moduleToSexp (IR.peepM m)
+    | none => Sexp.mk "bad-request" [.str "unknown-constructor"]
+  | "ECHOM", [m] =>
+    match IR.Wire.moduleOf m with
+    | some m => IR.Wire.moduleToSexp m
+    | none => Sexp.mk "bad-request" [.str "unknown-constructor"]
+  | "EQUIV", [fuel, a, b, .list envs] =>
+    match fuel.toNat?, IR.Wire.stmtOf a, IR.Wire.stmtOf b, envs.mapM envOf with
+    | some fuel, some a, some b, some envs =>
+      -- a bare expression is evaluated as `return e`
+      let wrap (s : IR.Stmt Float) : IR.Stmt Float := match s with | .expr e => .ret e | s => s
+      .list (envs.map fun σ => equivVerdict fuel (wrap a) (wrap b) σ)
+    | _, _, _, _ => Sexp.mk "bad-request" [.str "equiv-args"]
+  | "RUNENV", [fuel, a, env] =>
+    match fuel.toNat?, IR.Wire.stmtOf a, envOf env with
+    | some fuel, some a, some σ =>
+      let wrap (s : IR.Stmt Float) : IR.Stmt Float := match s with | .expr e => .ret e | s => s
+      outcomeSexp (IR.exec fuel (wrap a) σ)
+    | _, _, _ => Sexp.mk "bad-request" [.str "runenv-args"]
+  | "EXEC", [fuel, f, .list ts] =>
+    match fuel.toNat?, IR.Wire.funcOf f, ts.mapM IR.Wire.tensorInOf with
+    | some fuel, some f, some ts =>
+      let σ0 := IR.Wire.buildState ts
+      match IR.Wire.bindParams σ0 f.params (ts.map (·.name)) with
+      | none => Sexp.mk "bad-request" [.str "params"]
+      | some σ =>
+        match IR.exec fuel f.body σ with
+        | .error e => Sexp.mk "err" [.atom (IR.Wire.errName e)]
+        | .ok o =>
+          Sexp.mk "ok" [
+            Sexp.mk "ret" [match o.ret with | some v => IR.Wire.valToSexp v | none => .atom "none"],
+            .list ((ts.map (·.name)).zip o.st.tensors |>.map fun (n, t) => IR.Wire.tensorDump o.st n t),
+            Sexp.mk "iters" [Sexp.ofNat o.iters], Sexp.mk "steps" [Sexp.ofNat o.steps],
+            Sexp.mk "blocks" [Sexp.ofNat o.st.heap.length]]
+    | _, _, _ => Sexp.mk "bad-request" [.str "exec-args"]
   | _, _ => Sexp.mk "bad-request" [.str cmd]
 
 end Drv
